@@ -173,7 +173,23 @@ def make_clause(c):
         return lambda d, p: p * p
     if k == "knockout":
         return lambda d, p: torch.where(d.ul().spot.max(-1).values >= v, torch.zeros_like(p), p)
+    if k == "flaky_shift":
+        return FlakyShift(v)
     raise ValueError(k)
+
+
+class FlakyShift:
+    """a user clause (payoff + v) that raises once when armed (F8: a callback fails in the middle of payoff())"""
+
+    def __init__(self, v):
+        self.v = v
+        self.armed = False
+
+    def __call__(self, d, p):
+        if self.armed:
+            self.armed = False
+            raise RuntimeError("injected clause failure")
+        return p + self.v
 
 
 def clause_ref(c, payoff_list, spot_rows):
